@@ -416,6 +416,39 @@ func (g *Gen) All(md protoreflect.MessageDescriptor) []LMsg {
 			out = append(out, LMsg{"#" + itoa(int(fd.Number())) + ":" + lm.Class, lm.M})
 		}
 	}
+	if DefaultCombos > 0 && !g.Opt.URLSafe {
+		out = append(out, g.Combos(md, DefaultCombos)...)
+	}
+	return out
+}
+
+// DefaultCombos is the number of field-combination values All appends (set once per run by the
+// driver: quick 4, thorough 32).
+var DefaultCombos = 0
+
+// Combos returns n messages in which every field independently stays unset or takes one of its
+// boundary classes, so classes of different fields meet in one value (set-but-empty next to
+// null, extremes next to absent siblings, two oneofs, …). The draw depends only on the shape of
+// the message type (field count, index), never on the run's seed: the same combinations are
+// explored on every run, more of them in the thorough tier.
+func (g *Gen) Combos(md protoreflect.MessageDescriptor, n int) []LMsg {
+	fds := md.Fields()
+	per := make([][]LMsg, fds.Len())
+	for i := 0; i < fds.Len(); i++ {
+		per[i] = g.FieldClasses(md, fds.Get(i), nil)
+	}
+	var out []LMsg
+	for k := 0; k < n; k++ {
+		r := rand.New(rand.NewSource(int64(7919*fds.Len() + 104729*k + 13)))
+		m := dynamicpb.NewMessage(md)
+		for i := 0; i < fds.Len(); i++ {
+			if len(per[i]) == 0 || r.Intn(5) < 2 {
+				continue
+			}
+			proto.Merge(m, per[i][r.Intn(len(per[i]))].M)
+		}
+		out = append(out, LMsg{"combo" + itoa(k), m})
+	}
 	return out
 }
 
